@@ -2,22 +2,22 @@
    Statements only: for every pool size, every history of requests, every caller behaviour per response, every
    script of server replies of any length and every number of allowed retries. *)
 From Coq Require Import List Arith Bool.
-From V Require Import model.Wire proofs.Wire_proofs.
+From V Require Import model.Wire proofs.Wire_proofs gen.Gen_Read.
 Import ListNotations.
 
 (* result_ok script i rq res (proofs/Wire_proofs.v): every run of bytes delivered for request i carries tag i - the tag
    the server gives to the bytes it writes in reply to request i, strays carry 100+i - and what was delivered is either
    nothing or at most as many bytes as one reply of the script, answering a request of that kind, sent (k_sent <= k_n).
    all_ok: that holds for every request of the history. *)
-Theorem bytes_belong_to_request : forall fuel M script reqs,
-  all_ok script 0 reqs (run_history fuel M (init M script) 0 reqs).
-Proof. intros. exact (history_own fuel M reqs (init M script) 0). Qed.
+Theorem bytes_belong_to_request : forall rc fuel M script reqs,
+  all_ok script 0 reqs (run_history rc fuel M (init M script) 0 reqs).
+Proof. intros. exact (history_own rc fuel M reqs (init M script) 0). Qed.
 Print Assumptions bytes_belong_to_request.
 
 (* the same from any pool state whatever (any idle connections, any bytes pending on them) *)
-Theorem bytes_belong_from_any_state : forall fuel M st i reqs,
-  all_ok (s_script st) i reqs (run_history fuel M st i reqs).
-Proof. intros. exact (history_own fuel M reqs st i). Qed.
+Theorem bytes_belong_from_any_state : forall rc fuel M st i reqs,
+  all_ok (s_script st) i reqs (run_history rc fuel M st i reqs).
+Proof. intros. exact (history_own rc fuel M reqs st i). Qed.
 Print Assumptions bytes_belong_from_any_state.
 
 (* a pooled connection with bytes or EOF pending at checkout is closed, not used *)
@@ -35,23 +35,40 @@ Print Assumptions attempt_socket_clean.
 
 (* a connection whose previous response was left unread (and is still alive) never yields a response:
    the attempt fails and the socket is closed *)
-Theorem unread_response_blocks_reuse : forall M st2 s i rq r0 more,
-  exists st4, attempt M st2 s true i rq r0 more = (st4, None) /\ evs_of (s_evs st4) s = [].
+Theorem unread_response_blocks_reuse : forall rc M st2 s i rq r0 more,
+  exists st4, attempt rc M st2 s true i rq r0 more = (st4, None) /\ evs_of (s_evs st4) s = [].
 Proof. exact dirty_never_yields. Qed.
 Print Assumptions unread_response_blocks_reuse.
 
 (* a failed attempt is retried on a socket opened for it *)
-Theorem retry_on_fresh_socket : forall M st2 s d i rq r0 more st4,
+Theorem retry_on_fresh_socket : forall rc M st2 s d i rq r0 more st4,
   length (s_q st2) < M ->
-  attempt M st2 s d i rq r0 more = (st4, None) ->
+  attempt rc M st2 s d i rq r0 more = (st4, None) ->
   acquire st4 = (fst (open_sock (set_q st4 (s_q st2))), s_nsid st4, false) /\ s_nsid st4 = s_nsid st2.
 Proof. exact Wire_proofs.retry_on_fresh_socket. Qed.
 Print Assumptions retry_on_fresh_socket.
 
+(* release_conn() still closes a connection whose response was not read to its end (source fact), and then: a response
+   released unread, or after a partial read(k), never sends its connection back to the pool open - the rest of its body,
+   pending or still on its way, cannot be taken for the next response *)
+Theorem source_facts : Gen_Read.release_closes_unread = Some true.
+Proof. reflexivity. Qed.
+Print Assumptions source_facts.
+
+Theorem released_unread_is_closed : forall t r bl rest c d err it dirty,
+  respond true t r bl rest c = (d, err, APut it dirty) ->
+  match c with
+  | CRelease | CKeep => nothing_to_read r bl = true
+  | CReadK k => read_to_end r bl k = true
+  | _ => True
+  end.
+Proof. exact Wire_proofs.released_unread_is_closed. Qed.
+Print Assumptions released_unread_is_closed.
+
 (* non-vacuity 1: a history in which a stray second response is pending when the next request checks the connection
    out; the second request is served on a new socket and gets its own bytes *)
 Definition stray_then_probe : list result :=
-  run_history 3 1 (init 1 [mkReply 0 200 FLen 4 4 4 true SSepResp false; mkReply 0 200 FLen 4 4 4 true SNone false]) 0
+  run_history true 3 1 (init 1 [mkReply 0 200 FLen 4 4 4 true SSepResp false; mkReply 0 200 FLen 4 4 4 true SNone false]) 0
               [mkReq false false CRelease; mkReq false false CReadAll].
 Example stray_history :
   map (fun r => (r_delivered r, r_sock r)) stray_then_probe = [([], Some 0); ([(1, 4)], Some 1)].
@@ -62,6 +79,6 @@ Proof. vm_compute. reflexivity. Qed.
 Example without_the_checkout_test_bytes_leak :
   let st2 := mkSt [] [(0, [IResp 100 stray_reply])] 1 [] in
   option_map r_delivered
-    (snd (attempt 1 st2 0 false 1 (mkReq false false CReadAll) (mkReply 0 200 FLen 4 4 4 true SNone false) []))
+    (snd (attempt true 1 st2 0 false 1 (mkReq false false CReadAll) (mkReply 0 200 FLen 4 4 4 true SNone false) []))
   = Some [(100, 3)].
 Proof. vm_compute. reflexivity. Qed.
